@@ -267,6 +267,55 @@ def run(res, ctx):
             res.case(("cli",) + tuple(argv[:4]), True)
             if r["exc"] is not None or r["exit"] != 2:
                 res.violation("a test ID both included and excluded is not rejected with exit status 2", {"argv": argv[:4], "exit": r["exit"], "exc": r["exc"]})
+        # under a BASELINE too: what a restricted run reports against a baseline is what the unrestricted run reports against it, filtered by the selection (seeded change
+        # C05-m18 skipped the comparison for files whose number of findings equals the baseline's: under -t the count of a changed file can equal it by accident)
+        import json as _json0
+        bdir = _os.path.join(scratch.root, "bl_sel"); _os.makedirs(bdir, exist_ok=True)
+        histories = [("assert x\n", "assert x\n\nexec(a)\n"), ("import pickle\nassert y\n", "import pickle\nexec(b)\n"), ("eval(e)\nexec(c)\n", "eval(e)\nexec(c)\nexec(d)\nassert z\n"),
+                     ("password = 'pw'\nassert q\nassert r\n", "password = 'pw'\nassert q\neval(s)\n")]
+        for hi, (old_src, new_src) in enumerate(histories):
+            fpath = _os.path.join(bdir, "h%d.py" % hi)
+            open(fpath, "w").write(old_src)
+            basef = _os.path.join(bdir, "base%d.json" % hi)
+            C.run_cli(["-f", "json", "-q", "-o", basef, fpath])
+            open(fpath, "w").write(new_src)
+            r0 = C.run_cli(["-f", "json", "-q", "-b", basef, fpath])
+            try:
+                full = sorted((x["test_id"], x["line_number"]) for x in _json0.loads(r0["out"])["results"])
+            except Exception:
+                res.violation("no report for a scan against a baseline", {"old": old_src, "new": new_src, "exit": r0["exit"], "exc": r0["exc"]})
+                continue
+            for flag, sel in (("-t", ["B101"]), ("-t", ["B102"]), ("-t", ["B101", "B102"]), ("-t", ["B307", "B102"]), ("-s", ["B101"]), ("-s", ["B102", "B105"]), ("-t", ["B403", "B101"])):
+                r = C.run_cli(["-f", "json", "-q", "-b", basef, flag, ",".join(sel), fpath])
+                res.case(("selection-under-baseline", hi, flag, tuple(sel)), True)
+                res.count("selection-under-baseline")
+                try:
+                    got = sorted((x["test_id"], x["line_number"]) for x in _json0.loads(r["out"])["results"])
+                except Exception:
+                    got = None
+                want = [f for f in full if (f[0] in sel) == (flag == "-t")]
+                if got != want:
+                    res.violation("under a baseline, a restricted run does not report the unrestricted run's findings filtered by the selection",
+                                  {"baseline_taken_from": old_src, "scanned": new_src, "selection": [flag, sel], "unrestricted_against_baseline": [list(x) for x in full], "expected": [list(x) for x in want],
+                                   "reported": None if got is None else [list(x) for x in got], "exit": r["exit"], "exc": r["exc"]})
+        # ... also when the two lists come from DIFFERENT sources: the INI file (given with --ini, or found under the target) and the command line, a YAML / TOML file and
+        # the command line (seeded change C05-m17 let a -t id silently win over the same id in the INI file's skips)
+        import yaml as _yaml0
+        inif = scratch.fresh("skips.ini", b"[bandit]\nskips = B101,B601\n")
+        init = scratch.fresh("tests.ini", b"[bandit]\ntests = B101,B102\n")
+        ycfg = scratch.fresh("skips.yaml", _yaml0.safe_dump({"skips": ["B101"]}).encode())
+        ycft = scratch.fresh("tests.yaml", _yaml0.safe_dump({"tests": ["B101", "B102"]}).encode())
+        projd = _os.path.join(scratch.root, "proj_ini"); _os.makedirs(projd, exist_ok=True)
+        open(_os.path.join(projd, "a.py"), "w").write("assert x\n")
+        open(_os.path.join(projd, ".bandit"), "w").write("[bandit]\nskips = B101\n")
+        for label, argv in (("ini-skips + cli -t", ["--ini", inif, "-t", "B101", p]), ("ini-tests + cli -s", ["--ini", init, "-s", "B102", p]), ("project .bandit skips + cli -t", ["-r", projd, "-t", "B101"]),
+                            ("yaml-skips + cli -t", ["-c", ycfg, "-t", "B101", p]), ("yaml-tests + cli -s", ["-c", ycft, "-s", "B101", p]), ("yaml-skips + ini-tests", ["-c", ycfg, "--ini", init, p])):
+            r = C.run_cli(argv)
+            res.case(("cross-source-contradiction", label), True)
+            res.count("cross-source-contradiction")
+            if r["exc"] is not None or r["exit"] != 2:
+                res.violation("a test ID included by one source and excluded by another is not rejected with exit status 2",
+                              {"sources": label, "argv": [a if not a.startswith(scratch.root) else "<scratch>/" + _os.path.relpath(a, scratch.root) for a in argv], "exit": r["exit"], "exc": r["exc"], "stdout_head": r["out"][:160]})
         # named (legacy) profiles of a configuration file, selected with -p: the same restriction through another carrier (seeded change C05-m6: the
         # legacy conversion leaves an EMPTY `blacklist` entry in every profile, which a changed test then took for a legacy override — no blacklist
         # finding under any -p run)
